@@ -32,12 +32,10 @@ type msClassDef struct {
 	buddy  string   // name of a different class whose goja hash value collides with this one (same bucket chain)
 }
 
-// msInt53Keys adds the representations of +-2**53 that goja holds as valueFloat (results of integer arithmetic that
-// leaves the safe range, literals above 2**53). On the unchanged tree valueInt(2**53) and valueFloat(2**53) are the
-// same Number but hash differently, so Map/Set treat them as different keys: `new Set([2**53]).has(2**53+1)` is false.
-// That was a genuine defect, found by this engine and repaired in /repo (commit 454692a, see known_findings.json),
-// together with the same problem for `x = -0; x++`, `-(-0)` and `x = -0; x--`. The representations are now part of the
-// default pool (VERIF_C18_INT53=0 removes them again).
+// msInt53Keys adds the representations of +-2**53 that come out of integer arithmetic leaving the safe range and of
+// literals above 2**53. Before goja commit 454692a ("keep integral Numbers within +-2^53 in integer representation ...")
+// these were held as valueFloat(2**53), which hashed differently from valueInt(2**53): `new Set([2**53]).has(2**53+1)`
+// was false. They are part of the pool now; VERIF_C18_INT53=0 leaves them out (to check an older tree).
 var msInt53Keys = os.Getenv("VERIF_C18_INT53") != "0"
 
 func msNum(f float64) string {
@@ -200,6 +198,8 @@ type msEntry struct {
 	val   int
 	live  bool
 	era   int // number of clear() calls before the entry was appended
+	// symbol-property table only: attributes of the data property
+	enum, conf bool
 }
 
 type msMut struct {
@@ -207,8 +207,15 @@ type msMut struct {
 	kind   byte // 'a' append, 'u' update in place, 'd' delete, 'c' clear
 }
 
+type msStrKey struct {
+	live, enum bool
+	val        int
+}
+
 type msColl struct {
 	isSet   bool
+	isSym   bool       // the symbol-keyed own properties of an ordinary object (class = index of the symbol in PKEYS)
+	strs    []msStrKey // symbol table only: the string / index keys living on the same object
 	entries []msEntry
 	pos     []int // class -> index of its live entry, -1 if absent
 	live    int
@@ -310,4 +317,100 @@ func (it *msCursor) next() (int, bool) {
 	}
 	it.done = true
 	return -1, false
+}
+
+// ---- symbol-property table ------------------------------------------------------------------------------------
+//
+// ECMA-262 10.1.11 OrdinaryOwnPropertyKeys lists symbol keys "in ascending chronological order of property creation",
+// after all string keys. A property is created when it is defined while absent and ceases to exist when deleted, so the
+// table is the same tombstone list as [[MapData]] keyed by symbol identity: redefining a present key changes value or
+// attributes in place, delete leaves a tombstone, defining a deleted key appends a new entry.
+
+// Names of the keys of the property-key table PKEYS: symbols first, then string / index keys.
+var msSymExprs = []string{`Symbol("a")`, `Symbol("a")`, `Symbol()`, `Symbol("b")`, `Symbol.for("mapsim-reg-1")`, `Symbol.for("mapsim-reg-2")`, `Symbol.for("a")`,
+	`Symbol.iterator`, `Symbol.toStringTag`, `Symbol.hasInstance`, `Symbol.unscopables`, `Symbol("\u017c-desc")`, `Symbol("0")`, `Symbol("zz")`}
+var msStrExprs = []string{`"alpha"`, `"beta"`, `0`, `7`, `"10"`, `"-1"`}
+
+func msPKeysSrc() string {
+	return "var PKEYS = [" + strings.Join(msSymExprs, ", ") + ", " + strings.Join(msStrExprs, ", ") + "], NSYM = " + strconv.Itoa(len(msSymExprs)) + ";\n"
+}
+
+func msPKeyName(k int) string {
+	if k < len(msSymExprs) {
+		return fmt.Sprintf("S%d{%s}", k, msSymExprs[k])
+	}
+	return fmt.Sprintf("str{%s}", msStrExprs[k-len(msSymExprs)])
+}
+
+func newMsSymtab() *msColl {
+	c := newMsColl(false, len(msSymExprs))
+	c.isSym = true
+	c.strs = make([]msStrKey, len(msStrExprs))
+	return c
+}
+
+// Ways to define a property (argument "how" of the helper sy_set).
+const (
+	symAssign         = iota // o[k] = v
+	symDefine                // defineProperty {value, writable, enumerable: true, configurable: true}
+	symDefineNoEnum          // ... enumerable: false
+	symDefineNoConf          // ... enumerable: true, configurable: false
+	symReflectSet            // Reflect.set(o, k, v)
+	symGoSet                 // (*Object).SetSymbol
+	symGoDefineNoEnum        // (*Object).DefineDataPropertySymbol(..., enumerable false)
+)
+
+// symDefineProp applies a definition of symbol sym; it reports whether the key was present and whether a tombstone of
+// it existed (a re-add).
+func (c *msColl) symDefineProp(sym, val, client, how int) (present, readd bool) {
+	if p := c.pos[sym]; p >= 0 {
+		e := &c.entries[p]
+		e.val = val
+		switch how {
+		case symDefine:
+			e.enum = true
+		case symDefineNoEnum, symGoDefineNoEnum:
+			e.enum = false
+		case symDefineNoConf:
+			e.enum, e.conf = true, false
+		}
+		c.muts = append(c.muts, msMut{client, 'u'})
+		return true, false
+	}
+	for _, e := range c.entries {
+		if e.class == sym {
+			readd = true
+		}
+	}
+	c.pos[sym] = len(c.entries)
+	c.entries = append(c.entries, msEntry{class: sym, uni: sym, val: val, live: true, era: c.clears,
+		enum: how != symDefineNoEnum && how != symGoDefineNoEnum, conf: how != symDefineNoConf})
+	c.live++
+	c.muts = append(c.muts, msMut{client, 'a'})
+	return false, readd
+}
+
+// symDelete: false when the property exists and is not configurable.
+func (c *msColl) symDelete(sym, client int) (ok, hit bool) {
+	p := c.pos[sym]
+	if p < 0 {
+		return true, false
+	}
+	if !c.entries[p].conf {
+		return false, false
+	}
+	c.del(sym, client)
+	return true, true
+}
+
+func (c *msColl) strCounts() (all, enum int) {
+	for _, s := range c.strs {
+		if s.live {
+			all++
+			if s.enum {
+				enum++
+			}
+		}
+	}
+	return
 }
